@@ -1,1 +1,2 @@
 pub mod c16;
+pub mod c20;
